@@ -212,6 +212,10 @@ BUFFER_FUNCS = [
     ("tpmstream.io.hex.marshal", "parse_hex_string"),
     ("tpmstream.io.swtpm_log.marshal", "parse_hex_string"),
     ("tpmstream.io.auto.marshal", "detect_format_and_yield_buffer"),
+    # the front-end functions themselves: the source may only be handed on to a lazy scanner (never bytes(buffer), list(...))
+    ("tpmstream.io.hex.marshal", "marshal"),
+    ("tpmstream.io.swtpm_log.marshal", "marshal"),
+    ("tpmstream.io.auto.marshal", "marshal"),
 ]
 
 
